@@ -983,7 +983,7 @@ func runMode(shardFile string, shard, nshards int) {
 		expect[f[0]] = x
 	}
 
-	hypOK, hypBad, tripped, hidden := 0, 0, 0, 0
+	hypOK, hypBad, tripped, hidden, rrOK := 0, 0, 0, 0, 0
 	nmis := 0
 	lastObs := map[string]string{}
 	pending := map[string]*pendingCase{}
@@ -1017,6 +1017,9 @@ func runMode(shardFile string, shard, nshards int) {
 				trip := strings.TrimPrefix(f[5], "trip=")
 				if trip != "-" {
 					tripped++
+				}
+				if len(f) >= 9 && f[8] == "rr=1" {
+					rrOK++
 				}
 				hides := f[6] == "hidden=1"
 				if hides {
@@ -1131,7 +1134,7 @@ func runMode(shardFile string, shard, nshards int) {
 	runExtent(e, gdir, shard, nshards)
 
 	e.Finish("a history case is non-trivial when it has at least two revisions (a /Prev chain is followed), distinct by rendered file; a decoder case when it decodes without error; a /Length case when the hypotheses of the clause hold (body without trailing EOL and without EOL+endstream; declared length absent, negative, unresolvable, right, or wrong and not in front of white space + endstream)",
-		map[string]any{"files_satisfying_theorem_hypotheses": hypOK, "files_outside_wf_chain": hypBad, "files_with_subsection_1_n_free_65535": tripped, "files_with_hidden_objects": hidden})
+		map[string]any{"files_satisfying_theorem_hypotheses": hypOK, "files_outside_wf_chain": hypBad, "files_with_subsection_1_n_free_65535": tripped, "files_with_hidden_objects": hidden, "files_satisfying_read_render_side_conditions": rrOK})
 }
 
 // explainedBy reports whether the observation differs from the reference only at the probes
